@@ -1,9 +1,12 @@
 use crate::{core::Report, Args};
 
+pub mod c01;
 pub mod c02;
+pub mod l2;
 pub mod c03;
 pub mod c04;
 pub mod c05;
+pub mod c06;
 pub mod l1;
 pub mod c07;
 pub mod c08;
@@ -22,10 +25,12 @@ pub mod util;
 
 pub fn dispatch(id: &str, args: &Args) -> Option<Report> {
     Some(match id {
+        "C01" => c01::run(args),
         "C02" => c02::run(args),
         "C03" => c03::run(args),
         "C04" => c04::run(args),
         "C05" => c05::run(args),
+        "C06" => c06::run(args),
         "C07" => c07::run(args),
         "C08" => c08::run(args),
         "C09" => c09::run(args),
